@@ -168,5 +168,149 @@ pub proof fn lemma_part_new(ss: Seq<StreamEntry>, ss2: Seq<StreamEntry>, fs: Seq
 //@|    decreases fs0.len() - k,
 //@ end
 
+// ---------- per stream: order the files by first reception time, drop repeated entries ----------
+// R11 (std, documented contracts): `v.sort_by(|a, b| a.0.cmp(&b.0))` - afterwards ordered by `.0`, the same elements; `v.dedup()` - removes
+// consecutive repeated elements (only those)
+pub type TimeFile = (u64, String, DltFileInfos);
+pub open spec fn sorted_by_time(s: Seq<TimeFile>) -> bool { forall|i: int, j: int| 0 <= i < j < s.len() ==> s[i].0 <= s[j].0 }
+pub open spec fn dedup_seq(s: Seq<TimeFile>) -> Seq<TimeFile>
+    decreases s.len()
+{
+    if s.len() <= 1 { s } else if s[s.len() - 1] == s[s.len() - 2] { dedup_seq(s.drop_last()) } else { dedup_seq(s.drop_last()).push(s.last()) }
+}
+#[verifier::external_body]
+pub fn vx_sort_by_time(v: &mut Vec<TimeFile>)
+    ensures sorted_by_time(final(v)@), final(v)@.to_multiset() == old(v)@.to_multiset(),
+{ unimplemented!() }
+#[verifier::external_body]
+pub fn vx_dedup(v: &mut Vec<TimeFile>)
+    ensures final(v)@ == dedup_seq(old(v)@),
+{ unimplemented!() }
+// the property's hypothesis for this step: different files (of one stream) have different first reception times - entries with the same
+// time are the same entry (the same file named twice)
+pub open spec fn time_identifies(s: Seq<TimeFile>) -> bool { forall|i: int, j: int| 0 <= i < s.len() && 0 <= j < s.len() && #[trigger] s[i].0 == #[trigger] s[j].0 ==> s[i] == s[j] }
+pub open spec fn strictly_by_time(s: Seq<TimeFile>) -> bool { forall|i: int, j: int| 0 <= i < j < s.len() ==> s[i].0 < s[j].0 }
+// ordered + "same time, same entry": after dedup every entry occurs once (the times are strictly increasing) and none is lost
+pub proof fn lemma_dedup_sorted(s: Seq<TimeFile>)
+    requires sorted_by_time(s), time_identifies(s),
+    ensures
+        strictly_by_time(dedup_seq(s)),
+        s.len() > 0 ==> dedup_seq(s).len() > 0 && dedup_seq(s).last() == s.last(),
+        forall|i: int| 0 <= i < s.len() ==> dedup_seq(s).contains(#[trigger] s[i]),
+        forall|x: TimeFile| dedup_seq(s).contains(x) ==> s.contains(x),
+    decreases s.len(),
+{
+    if s.len() <= 1 {
+        assert forall|i: int| 0 <= i < s.len() implies dedup_seq(s).contains(#[trigger] s[i]) by { assert(dedup_seq(s)[i] == s[i]); }
+    } else {
+        let p = s.drop_last();
+        assert(sorted_by_time(p)) by { assert forall|i: int, j: int| 0 <= i < j < p.len() implies p[i].0 <= p[j].0 by { assert(p[i] == s[i] && p[j] == s[j]); } }
+        assert(time_identifies(p)) by { assert forall|i: int, j: int| 0 <= i < p.len() && 0 <= j < p.len() && #[trigger] p[i].0 == #[trigger] p[j].0 implies p[i] == p[j] by { assert(p[i] == s[i] && p[j] == s[j]); } }
+        lemma_dedup_sorted(p);
+        let d = dedup_seq(p);
+        assert(d.last() == p.last() && p.last() == s[s.len() - 2]);
+        if s[s.len() - 1] == s[s.len() - 2] {
+            assert(dedup_seq(s) == d);
+            assert forall|i: int| 0 <= i < s.len() implies dedup_seq(s).contains(#[trigger] s[i]) by {
+                if i < s.len() - 1 { assert(p[i] == s[i]); assert(d.contains(p[i])); } else { assert(d.contains(p[p.len() - 1])); }
+            }
+            assert forall|x: TimeFile| dedup_seq(s).contains(x) implies s.contains(x) by { assert(p.contains(x)); let k = choose|k: int| 0 <= k < p.len() && p[k] == x; assert(s[k] == x); }
+        } else {
+            let r = d.push(s.last());
+            assert(dedup_seq(s) == r);
+            // the last entry has a later time than everything kept so far: d ends with s[n-2], whose time is <= and, not being equal, <
+            assert(s[s.len() - 2].0 <= s[s.len() - 1].0);
+            assert(s[s.len() - 2].0 != s[s.len() - 1].0);
+            assert(strictly_by_time(r)) by {
+                assert forall|i: int, j: int| 0 <= i < j < r.len() implies r[i].0 < r[j].0 by {
+                    if j < d.len() { assert(r[i] == d[i] && r[j] == d[j]); }
+                    else { assert(r[i] == d[i]); if i < d.len() - 1 { assert(d[i].0 < d[d.len() - 1].0); } }
+                }
+            }
+            assert forall|i: int| 0 <= i < s.len() implies r.contains(#[trigger] s[i]) by {
+                if i < s.len() - 1 { assert(p[i] == s[i]); assert(d.contains(p[i])); let k = choose|k: int| 0 <= k < d.len() && d[k] == p[i]; assert(r[k] == s[i]); }
+                else { assert(r[r.len() - 1] == s[i]); }
+            }
+            assert forall|x: TimeFile| r.contains(x) implies s.contains(x) by {
+                let k = choose|k: int| 0 <= k < r.len() && r[k] == x;
+                if k < d.len() { assert(d[k] == x); assert(d.contains(x)); assert(p.contains(x)); let q = choose|q: int| 0 <= q < p.len() && p[q] == x; assert(s[q] == x); }
+                else { assert(s[s.len() - 1] == x); }
+            }
+        }
+    }
+}
+//@ extract src/bin/adlt/convert.rs region `_id_.sort_by(|a, b| a.0 ||| _id_.sort_by_key(|_id_| _id_.0) ||| _id_.dedup();` .. `_id_.dedup(); ||| _id_.sort_by(|a, b| a.0 ||| _id_.sort_by_key(|_id_| _id_.0)` in fn convert
+//@   sig pub fn stream_files_in_order(mut time_files: Vec<TimeFile>) -> (r: Vec<TimeFile>)
+//@   tail `time_files`
+//@   sub R11 `_id_.sort_by(|a, b| a.0.cmp(&b.0));` => `vx_sort_by_time(&mut time_files);` ?
+//@   sub R11 `_id_.sort_by_key(|_id_| _id_.0);` => `vx_sort_by_time(&mut time_files);` ?
+//@   sub R11 `_id_.dedup();` => `vx_dedup(&mut time_files);` ?
+//@   spec
+//@|    ensures
+//@|        sorted_by_time(r@), // O:convert.stream.sorted (the files of a stream are read in the order of their first reception time)
+//@|        time_identifies(time_files@) ==> strictly_by_time(r@)
+//@|            && (forall|i: int| 0 <= i < time_files@.len() ==> r@.contains(#[trigger] time_files@[i])) && (forall|x: TimeFile| r@.contains(x) ==> time_files@.contains(x)), // O:convert.stream.once (with distinct first reception times for different files: every file of the stream is read, each exactly once - a file named twice is read once)
+//@   hint start
+//@|    let ghost tf0 = time_files@;
+//@|    let ghost mut s1: Seq<TimeFile> = time_files@;
+//@   hint after `vx_sort_by_time(&mut time_files);`
+//@|    proof { s1 = time_files@; }
+//@   hint before `^time_files`
+//@|    proof {
+//@|        // (conditional on the shape sort-then-dedup: anything else gets no help)
+//@|        if sorted_by_time(s1) && s1.to_multiset() == tf0.to_multiset() && time_files@ == dedup_seq(s1) {
+//@|            assert(sorted_by_time(dedup_seq(s1))) by {
+//@|                if time_identifies(s1) { lemma_dedup_sorted(s1); } else { lemma_dedup_keeps_order(s1); }
+//@|            }
+//@|            if time_identifies(tf0) {
+//@|                assert(time_identifies(s1)) by {
+//@|                    assert forall|i: int, j: int| 0 <= i < s1.len() && 0 <= j < s1.len() && #[trigger] s1[i].0 == #[trigger] s1[j].0 implies s1[i] == s1[j] by {
+//@|                        lemma_in_multiset(s1, tf0, i); lemma_in_multiset(s1, tf0, j);
+//@|                        let a = choose|a: int| 0 <= a < tf0.len() && tf0[a] == s1[i]; let b = choose|b: int| 0 <= b < tf0.len() && tf0[b] == s1[j];
+//@|                        assert(tf0[a].0 == tf0[b].0);
+//@|                    }
+//@|                }
+//@|                lemma_dedup_sorted(s1);
+//@|                assert forall|i: int| 0 <= i < tf0.len() implies time_files@.contains(#[trigger] tf0[i]) by {
+//@|                    lemma_in_multiset(tf0, s1, i); let a = choose|a: int| 0 <= a < s1.len() && s1[a] == tf0[i]; assert(dedup_seq(s1).contains(s1[a]));
+//@|                }
+//@|                assert forall|x: TimeFile| time_files@.contains(x) implies tf0.contains(x) by {
+//@|                    assert(s1.contains(x)); let a = choose|a: int| 0 <= a < s1.len() && s1[a] == x; lemma_in_multiset(s1, tf0, a);
+//@|                }
+//@|            }
+//@|        }
+//@|    }
+//@ end
+// dropping consecutive repeats keeps the order
+pub proof fn lemma_dedup_keeps_order(s: Seq<TimeFile>)
+    requires sorted_by_time(s),
+    ensures sorted_by_time(dedup_seq(s)), s.len() > 0 ==> dedup_seq(s).len() > 0 && dedup_seq(s).last() == s.last(),
+    decreases s.len(),
+{
+    if s.len() > 1 {
+        let p = s.drop_last();
+        assert(sorted_by_time(p)) by { assert forall|i: int, j: int| 0 <= i < j < p.len() implies p[i].0 <= p[j].0 by { assert(p[i] == s[i] && p[j] == s[j]); } }
+        lemma_dedup_keeps_order(p);
+        let d = dedup_seq(p);
+        if s[s.len() - 1] != s[s.len() - 2] {
+            let r = d.push(s.last());
+            assert(sorted_by_time(r)) by {
+                assert forall|i: int, j: int| 0 <= i < j < r.len() implies r[i].0 <= r[j].0 by {
+                    if j < d.len() { assert(r[i] == d[i] && r[j] == d[j]); }
+                    else { assert(r[i] == d[i]); assert(d[i].0 <= d[d.len() - 1].0); assert(d.last() == p.last()); assert(p.last() == s[s.len() - 2]); assert(s[s.len() - 2].0 <= s[s.len() - 1].0); }
+                }
+            }
+        }
+    }
+}
+pub proof fn lemma_in_multiset(a: Seq<TimeFile>, b: Seq<TimeFile>, i: int)
+    requires 0 <= i < a.len(), a.to_multiset() == b.to_multiset(),
+    ensures b.contains(a[i]),
+{
+    a.to_multiset_ensures(); b.to_multiset_ensures();
+    assert(a.contains(a[i]));
+    assert(a.to_multiset().count(a[i]) > 0);
+}
+
 fn main() {}
 } // verus!
